@@ -684,6 +684,29 @@ def family(crate, body, depth=0):
                         for o_ in list(rv_.get('ops', [])) + [rv_[k_] for k_ in ('use', 'op') if isinstance(rv_.get(k_), dict)]:
                             if isinstance(o_, dict) and 'k' in o_ and o_['k'].get('fn'):
                                 refs.add(o_['k']['fn'])
+            # .. also when they sit in a constant table the body reads (`CLASSIFIERS: &[fn(..) -> ..]`)
+            for bb_ in src.live_blocks():
+                t_ = src.term(bb_)
+                ops_ = list(t_.get('args', [])) if t_['k'] == 'call' else []
+                for st_ in src.blocks[bb_]['stmts']:
+                    rv_ = st_.get('rv') if isinstance(st_, dict) else None
+                    if isinstance(rv_, dict):
+                        ops_ += list(rv_.get('ops', [])) + [rv_[k_] for k_ in ('use', 'op') if isinstance(rv_.get(k_), dict)]
+                        if isinstance(rv_.get('ref'), dict) and rv_['ref'].get('static'):
+                            ops_.append({'k': {'def': rv_['ref']['static']}})
+                for o_ in ops_:
+                    cd_ = o_.get('k', {}).get('def') if isinstance(o_, dict) and isinstance(o_.get('k'), dict) else None
+                    if not cd_ or 'promoted' in o_['k'] and False:
+                        continue
+                    for cb_ in crate.by_path.get(cd_, []) + [x_ for p_, bs_ in crate.by_path.items() if p_.startswith(cd_ + '::{promoted') for x_ in bs_]:
+                        if cb_.kind in ('const', 'static', 'promoted'):
+                            for b2_ in cb_.live_blocks():
+                                for st2_ in cb_.blocks[b2_]['stmts']:
+                                    rv2_ = st2_.get('rv') if isinstance(st2_, dict) else None
+                                    if isinstance(rv2_, dict):
+                                        for o2_ in list(rv2_.get('ops', [])) + [rv2_[k_] for k_ in ('use', 'op') if isinstance(rv2_.get(k_), dict)]:
+                                            if isinstance(o2_, dict) and 'k' in o2_ and o2_['k'].get('fn'):
+                                                refs.add(o2_['k']['fn'])
             for fn_ in sorted(refs):
                 base_ = re.sub(r'::<[^:]*>$', '', fn_)
                 if base_ in kn or not base_.startswith(crate.name + '::'):
@@ -1260,3 +1283,14 @@ def table_lookup(crate, term):
         pick = lambda e, ix_: (strip_refs(e[2][ix_]) if (ix_ is not None and e and e[0] == 'agg' and e[1].get('kind') == 'tuple' and ix_ < len(e[2])) else e)
         return dict(kind='index', entries=ents, key=None, value=lambda e: pick(e, fidx), probe=ix[0][2], default=None)
     return None
+
+
+def guard_is_some(tm, vals, pred):
+    """the guard says that an Option produced by a call satisfying `pred` was Some: `match x { Some(..) => here }` (discriminant 1) or
+    `x?` (Try::branch gave Continue, discriminant 0)"""
+    if not (tm and tm[0] == 'discr'):
+        return False
+    inner = strip_refs(tm[1])
+    if is_call(inner, name='branch') and inner[2] and term_contains(inner[2][0], pred):
+        return vals == [0]
+    return term_contains(inner, pred) and vals == [1]
